@@ -685,10 +685,6 @@ Theorem only_layout_is_eof g : tgap g -> map shape (lex g) = [(EOF, [])].
 Proof. intros G. unfold Lexer.lex. apply lex_all_at_end. cbn [init chs]. apply tgap_skipped. exact G. Qed.
 End MAIN.
 
-Print Assumptions layout_between_tokens_any_gap.
-Print Assumptions trailing_layout_then_eof.
-Print Assumptions trailing_layout_is_ignored.
-Print Assumptions only_layout_is_eof.
 
 Definition no_hi : N -> bool := fun _ => false.
 
@@ -966,7 +962,6 @@ End STRTOK.
 Theorem string_tokens_end_located is_letter_hi is_digit_hi is_space_hi (s : text) :
   Forall (fun tk => ttype tk = STRING -> string_ends s tk) (lex is_letter_hi is_digit_hi is_space_hi s).
 Proof. unfold lex. apply (lex_all_str is_letter_hi is_digit_hi is_space_hi s). right. apply P_init. Qed.
-Print Assumptions string_tokens_end_located.
 
 (* ---------- the same for a string written as given parts: the end is behind the closing quote of the last part ---------- *)
 Section STRPARTS.
@@ -1062,7 +1057,6 @@ Proof.
   eexists. eexists. split; [reflexivity|]. split; [|split; [exact A|exact B]].
   unfold read_string_token. destruct (read_string' _ _ _ _) as [[lit [[el eb] eu]] l']. reflexivity.
 Qed.
-Print Assumptions string_token_end_of_parts.
 
 Lemma bytes_app x y : bytes (x ++ y) = bytes x + bytes y.
 Proof. unfold bytes. induction x as [|c x IH]; cbn [app fold_right]; [lia|]. rewrite IH. lia. Qed.
@@ -1089,7 +1083,6 @@ Proof.
   pose proof (f_equal (fun x => fst (fst x)) B) as B1. pose proof (f_equal (fun x => snd (fst x)) B) as B2. pose proof (f_equal snd B) as B3.
   cbv beta in *. cbn [fst snd] in *. lia.
 Qed.
-Print Assumptions one_line_string_end.
 
 (* the hypotheses are satisfiable: x "ab" "c" y - the string token starts at column 2 and ends at column 10 *)
 Example string_end_example :
